@@ -182,7 +182,6 @@ func (i *Interpreter) Show(arg string) error {
 
 // Load loads source files in a pathset and analyzes them together.
 func (i *Interpreter) Load(pathset string) error {
-	i.resetInteractiveDefs("")
 	var units []parse.SourceUnit
 	for _, path := range strings.Split(pathset, ",") {
 		if path == "" {
@@ -200,7 +199,15 @@ func (i *Interpreter) Load(pathset string) error {
 		}
 		units = append(units, unit)
 	}
-	return i.pushLoadedFragment(pathset, units)
+	// A load drops the interactive definitions, but only if it succeeds: a
+	// rejected load leaves the state as it was.
+	prevBuffer := i.buffer
+	prev := i.resetInteractiveDefs("")
+	if err := i.pushLoadedFragment(pathset, units); err != nil {
+		i.restoreInteractiveDefs(prev, prevBuffer)
+		return err
+	}
+	return nil
 }
 
 func (i *Interpreter) pushLoadedFragment(pathset string, units []parse.SourceUnit) error {
